@@ -177,18 +177,28 @@ def worker(arg):
             super().__init__()
             self.sess = None
             self.chooser = None
+            self.aborted = False
 
         @initialize(data=st.data(), sasl=st.sampled_from(MECHS), version=st.sampled_from([True, True, False]),
                     schedule=st.lists(st.integers(1, 9), max_size=30), cap=st.sampled_from([None, None, 1, 2, 5, 16]), preload=st.booleans())
         def start(self, data, sasl, version, schedule, cap, preload):
             self.chooser = DrawChooser(data)
+            self.aborted = True  # until the session is set up completely
             self.sess = Sess({"sasl": sasl, "version": version, "schedule": schedule, "cap": cap, "preload": preload}, self.chooser)
+            self.aborted = False
 
         def _do(self, data, op, args):
             if self.sess is None or self.sess.fails:
                 return
             self.chooser.data = data
-            self.sess.step(op, args)
+            try:
+                self.sess.step(op, args)
+            except BaseException:
+                # Hypothesis stopped the example in the middle of a draw (data
+                # budget exhausted): the session is half-way through a
+                # command and must not be judged
+                self.aborted = True
+                raise
 
         @rule(data=st.data(), name=st.sampled_from(NAMES), body=R.script_body())
         def putscript(self, data, name, body):
@@ -233,6 +243,10 @@ def worker(arg):
         def teardown(self):
             sess = self.sess
             if sess is None:
+                return
+            if self.aborted:
+                sess.close()
+                col.notes["examples-aborted-by-hypothesis"] += 1
                 return
             sess.finish()
             sess.close()
